@@ -30,7 +30,9 @@ EccCheck(e) ==
 PlaceCheck(e, ch) ==
   IF e.panic = 1 \/ ~ChShapeOK(e.rows, e.nc, e.nr) THEN <<0>>
   ELSE LET rows == ChUnRows(e.rows, e.nc, e.nr) IN
-       <<B(\A y \in 0..e.nr-1, x \in 0..e.nc-1 : rows[y+1][x+1] = MapVal(ch.map, e.cw, x, y))>>
+       <<B(/\ \A y \in 0..e.nr-1, x \in 0..e.nc-1 : rows[y+1][x+1] = MapVal(ch.map, e.cw, x, y)
+           \* the placement made by the previous event (kept alive by the driver) still holds what it held
+           /\ (Has(e, "prev_then") => e.prev_then = e.prev_now))>>
 LookupCheck(e) ==
   LET i == Lookup(e.n, e.shape, e.mn, e.mx) IN
   IF e.panic = 1 THEN <<0>>
